@@ -2,6 +2,7 @@
 import json, os
 import common as C
 import corr
+from runner import Violation
 
 LEVEL = "proof"
 LEAN_MODULES = ["FsDb.Properties.C17"]
@@ -20,6 +21,10 @@ def correspond(ctx):
                                           env={"VERIF_HISTORIES": 12 if ctx.thorough else 3},
                                           what="C17 dir: walk of the real storage roots (placement + per-directory entry counts) vs Lean Dir model; observed directory choices must be legal candidates")
     n = stats.get("lines", 0)
+    for what in (stats.get("reuse_bad") or [])[:1]:
+        rp = C.write_replay("C17", "reuse", {"property": "C17", "kind": "reuse-scenario", "observed": stats.get("reuse_bad"),
+                            "scenario": "1 root, limit 100: 101 Sets (the first directory fills, a second one is created), 60 Deletes of keys of the first + collector + drain, 40 Sets; the first directory must receive some of them (probability of a false alarm 2^-40)"})
+        v.append(Violation("c17-reuse", "a directory that regained room through deletions is not used again: " + what, rp))
     if not v and stats.get("max_entries_seen", 0) < 100:
         raise C.MachineryError("degenerate C17 run: no directory reached the limit (max entries seen %s)" % stats.get("max_entries_seen"))
     cov = {"evaluations": n, "distinct_nontrivial": stats.get("histories", 0) + stats.get("new_dirs", 0),
